@@ -130,16 +130,38 @@ impl Document {
     ///
     /// Should be run after every change to the underlying [`Self::source`].
     fn parse(&mut self, dictionary: &impl Dictionary) {
+        #[cfg(harper_verif)]
+        crate::verif::stage("parser", &self.tokens, &self.source);
         self.condense_spaces();
+        #[cfg(harper_verif)]
+        crate::verif::stage("condense_spaces", &self.tokens, &self.source);
         self.condense_newlines();
+        #[cfg(harper_verif)]
+        crate::verif::stage("condense_newlines", &self.tokens, &self.source);
         self.newlines_to_breaks();
+        #[cfg(harper_verif)]
+        crate::verif::stage("newlines_to_breaks", &self.tokens, &self.source);
         self.condense_contractions();
+        #[cfg(harper_verif)]
+        crate::verif::stage("condense_contractions", &self.tokens, &self.source);
         self.condense_dotted_initialisms();
+        #[cfg(harper_verif)]
+        crate::verif::stage("condense_dotted_initialisms", &self.tokens, &self.source);
         self.condense_number_suffixes();
+        #[cfg(harper_verif)]
+        crate::verif::stage("condense_number_suffixes", &self.tokens, &self.source);
         self.condense_ellipsis();
+        #[cfg(harper_verif)]
+        crate::verif::stage("condense_ellipsis", &self.tokens, &self.source);
         self.condense_latin();
+        #[cfg(harper_verif)]
+        crate::verif::stage("condense_latin", &self.tokens, &self.source);
         self.match_quotes();
+        #[cfg(harper_verif)]
+        crate::verif::stage("match_quotes", &self.tokens, &self.source);
         self.articles_imply_nouns();
+        #[cfg(harper_verif)]
+        crate::verif::stage("articles_imply_nouns", &self.tokens, &self.source);
 
         for token in self.tokens.iter_mut() {
             if let TokenKind::Word(meta) = &mut token.kind {
